@@ -117,11 +117,14 @@ Proof. intros m; start; destruct m; [dv a8 | dv a9 | dv a10 | dv a11 | dv a12]; 
 Lemma refine_throw : forall w d, step_goal S0 C0 (SnThrow w d).
 Proof.
   intros w d; start.
-  destruct d as [[[] z]|]; destruct w as [|[]| | | | | | | | | | | ]; nf; fin.
+  destruct d as [[[] z]|]; destruct w as [|[]| | | | | | | | | | | | | | ]; nf; fin.
 Qed.
 
 Lemma refine_usefiber : step_goal S0 C0 SnUseFiber.
 Proof. start; dv a7; nf; fin. Qed.
+
+Lemma refine_probetotal : step_goal S0 C0 SnProbeTotal.
+Proof. start; nf; fin. Qed.
 End Plain.
 
 Section Imports.
@@ -197,7 +200,7 @@ Proof.
   intros [sg si] [he fibs cd [mg mb mm ms mn] ch rg [a0 a1 a2 a3 a4 a5 a6 a7 a8 a9 a10 a11 a12]] sn
          [Hgl Hi [Hu1 Hu2] Hf Hg].
   cbn in Hgl, Hi, Hu1, Hu2, Hf, Hg. subst sg mm ms.
-  destruct sn as [g z|g|f g|f|cl z|cl|pre|w d|  |  |  |  |k|  |  |m|m| ].
+  destruct sn as [g z|g|f g|f|cl z|cl|pre|w d|  |  |  |  |k|  |  |  |m|m| ].
   - apply refine_var; auto.
   - apply refine_print; auto.
   - apply refine_fn; auto.
@@ -213,6 +216,7 @@ Proof.
   - apply refine_range; auto.
   - apply refine_useleak; auto.
   - apply refine_usefiber; auto.
+  - apply refine_probetotal; auto.
   - destruct m.
     + apply refine_import_good; auto.
     + apply refine_import_throw; auto.
